@@ -5,7 +5,7 @@ From BV Require Import Base.Prelude Model.Block Model.ForkDB Model.Forkable Mode
   Spec.Consumer Spec.Universe Check.Fk_Check Check.Burst_Check Spec.C09_Spec Spec.C05_Spec
   Spec.C01_Spec Spec.C01_Moving_Spec Spec.C05_History_Spec
   Proofs.Fk.StoreFacts Proofs.Fk.WalkFacts Proofs.Fk.LoopFacts Proofs.Fk.FixedLib
-  Proofs.Fk.MovingLibInv Proofs.Fk.MovingLibFin Proofs.Fk.MovingLibDisc Proofs.C02_Proofs
+  Proofs.Fk.MovingLibInv Proofs.Fk.MovingLibFin Proofs.Fk.MovingLibDisc Proofs.C02_Proofs Spec.C01_Roots_Spec Proofs.C01_Roots_Proofs
   Proofs.Hub.StepFields Proofs.Hub.ConsFacts Proofs.Hub.HubInv Proofs.Hub.HubRun Proofs.Hub.LinkedRuns Proofs.Hub.CursorLife.
 Local Open Scope N_scope.
 
@@ -20,16 +20,20 @@ Proof. intros l1 l2 c c' H. rewrite cfold_app in H. destruct (cons_fold c l1) as
 
 Section History.
   Variables (first kept : N) (h : list block).
-  Hypothesis Hscope : disc_scope_b h = true.
+  Hypothesis Hwfb : wf_b h = true.
+  Hypothesis Hlok : lib_ok_b LNone h = true.
+
+  Let Hscope : disc_scope2_b h = true.
+  Proof. unfold disc_scope2_b. rewrite Hwfb, Hlok. reflexivity. Qed.
 
   Let cfg := hub_config first kept.
   Let s0 := fs_init LNone.
   Let tr := fk_run cfg s0 h.
 
-  Let Hid := bridge_id h (d_wf h Hscope) (d_par h Hscope).
-  Let Huniq := bridge_uniq h (d_wf h Hscope).
-  Let Hup := bridge_up h (d_wf h Hscope).
-  Let Hdecl := bridge_decl_none h Hscope.
+  Let Hid := bridge_id h Hwfb.
+  Let Huniq := bridge_uniq h Hwfb.
+  Let Hup := bridge_up h Hwfb.
+  Let Hdecl := bridge2_decl_none h Hscope.
 
   Lemma hist_run hm : (forall b, In b hm -> In b h) ->
     exists s', run_ok cfg s0 hm s' /\ Phase h cfg s' (all_events (fk_run cfg s0 hm)).
@@ -144,24 +148,23 @@ End History.
 
 Lemma c05_resume_history_proof : C05_resume_history.
 Proof.
-  intros first kept h k m ek ck cm evs Hscope cfg tr upto Hk Hnu Hlt Hck Hcm HB ck'.
-  exists cm. split; [|split; reflexivity].
-  exact (resume_history_proof first kept h Hscope k m ek ck cm evs Hk Hnu Hlt Hck Hcm HB).
+  intros first kept h k m ek ck cm evs Hwf Hok cfg tr upto Hk Hnu Hlt Hck Hcm HB ck'.
+  exact (resume_history_proof first kept h Hwf Hok k m ek ck cm evs Hk Hnu Hlt Hck Hcm HB).
 Qed.
 
-Lemma c05_resume_full_no_empty_parent_proof : C05_resume_full_no_empty_parent.
+(* the statement of Spec/C05_Spec.v *)
+Lemma c05_resume_full_proof : C05_resume_full.
 Proof.
-  intros first kept h k m ek ck cm evs Hwf Hok Hpar cfg tr upto Hk Hnu Hlt Hck Hcm HB ck'.
-  assert (Hscope : disc_scope_b h = true) by (unfold disc_scope_b; rewrite Hwf, Hok, Hpar; reflexivity).
+  intros first kept h k m ek ck cm evs Hwf Hok cfg tr upto Hk Hnu Hlt Hck Hcm HB ck'.
   exists cm. split; [|split; reflexivity].
-  exact (resume_history_proof first kept h Hscope k m ek ck cm evs Hk Hnu Hlt Hck Hcm HB).
+  exact (resume_history_proof first kept h Hwf Hok k m ek ck cm evs Hk Hnu Hlt Hck Hcm HB).
 Qed.
 
 Lemma c05_history_total_proof : C05_history_total.
-Proof. intros first kept h Hscope. exact (total_history_proof first kept h Hscope). Qed.
+Proof. intros first kept h Hwf Hok. exact (total_history_proof first kept h Hwf Hok). Qed.
 
 Lemma c05_cursor_meets_hypotheses_proof : C05_cursor_meets_hypotheses.
 Proof.
-  intros first kept h k m ek ck hd sg Hscope cfg tr upto s Hk Hnu Hlt Hck Hls E Hlibin.
-  exact (meets_history_proof first kept h Hscope k m ek ck hd sg Hk Hnu Hlt Hck Hls E Hlibin).
+  intros first kept h k m ek ck hd sg Hwf Hok cfg tr upto s Hk Hnu Hlt Hck Hls E Hlibin.
+  exact (meets_history_proof first kept h Hwf Hok k m ek ck hd sg Hk Hnu Hlt Hck Hls E Hlibin).
 Qed.
